@@ -1,7 +1,2 @@
-import Gts.Model.Loc
-import Gts.Model.Region
-import Gts.Model.Seq
-import Gts.Model.Pars
-import Gts.Model.LocText
-import Gts.Model.Sexp
-import Gts.Model.Ops
+import Gts.Model.OpsAll
+import Gts.Lemmas.Push
